@@ -162,12 +162,27 @@ pub fn run(ctx: &Ctx) -> Result<Evidence, String> {
         ("$.s[?{F}({P}, @)]", true),
         ("$.s[?{F}(@, {P}) || {F}(@, 'c')]", true),
     ];
+    // long and unusual strings: length() by Unicode scalar values, match/search over them
+    let ldoc = Doc::new(&J::Obj(vec![("s".into(), J::Arr(oracle::gen::boundary_strings().into_iter().map(J::Str).collect())), ("p".into(), J::str("a{2048}"))]));
+    let mut lq: Vec<String> = vec![];
+    for n in [0usize, 1, 15, 16, 17, 31, 32, 33, 63, 64, 65, 127, 128, 129, 255, 256, 257, 1000, 1001, 2047, 2048, 2049, 4096, 4097, 10000, 10001] {
+        lq.push(format!("$.s[?length(@) == {}]", n));
+        lq.push(format!("$.s[?length(@) > {}]", n));
+    }
+    for e in ["match(@, 'a*')", "match(@, '(a|\u{e9})*')", "search(@, 'a{64}')", "search(@, 'b\u{1f600}$')", "match(@, $.p)", "match(@, '.{2048}')", "search(@, '^.{2049,}$')", "length(@) == length(@)", "match(@, '[^b]*') && length(@) >= 2048"] {
+        lq.push(format!("$.s[?{}]", e));
+    }
+    let n_l = lq.len();
     let n_v = vq.len();
     let n_r = pats.len() * forms.len() * 2;
-    let acc = par_run(ctx, n_v + n_r, |i, acc: &mut Acc| {
+    let acc = par_run(ctx, n_v + n_r + n_l, |i, acc: &mut Acc| {
         let (text, doc, fam): (String, &Doc, &str);
         let mut pat_lit_trigger = false;
-        if i < n_v {
+        if i >= n_v + n_r {
+            text = lq[i - n_v - n_r].clone();
+            doc = &ldoc;
+            fam = "long-strings";
+        } else if i < n_v {
             text = vq[i].clone();
             doc = &vdoc;
             fam = "value-functions";
@@ -235,6 +250,9 @@ pub fn run(ctx: &Ctx) -> Result<Evidence, String> {
             Verdict::Violated(m) => ctx.violate(&m, judge::replay_json("query", &text, doc, &j)),
         }
     });
+    if acc.counters.get("HARNESS_regex_oracle_disagreement").copied().unwrap_or(0) > 0 {
+        return Err(format!("the regex oracle and the mini matcher disagree on {} (pattern, subject) pairs: oracle defect", acc.counters["HARNESS_regex_oracle_disagreement"]));
+    }
     if acc.counters.get("HARNESS_not_valid").copied().unwrap_or(0) > 0 {
         return Err(format!("{} generated C10 queries are not Valid for oracle (b)", acc.counters["HARNESS_not_valid"]));
     }
@@ -342,7 +360,22 @@ fn check_func(name: &str, args: &[Operand], result: &Operand, acc: &mut Acc) -> 
                     if u3_zone(s, p) {
                         return Ok(());
                     }
-                    regex_oracle(s, p, f == "search")
+                    let o = regex_oracle(s, p, f == "search");
+                    // keep the oracle honest: the independent mini matcher must agree wherever
+                    // the pattern is inside its subset
+                    if let Some(mini) = oracle::minire::is_match(p, s, f == "search") {
+                        if mini == o {
+                            acc.count("regex_oracle_agrees_with_mini_matcher", 1);
+                        } else {
+                            acc.count("HARNESS_regex_oracle_disagreement", 1);
+                            if std::env::var("VERIF_DEBUG").is_ok() {
+                                eprintln!("MINIRE pattern={:?} subject={:?} search={} mini={} oracle={}", p, s, f == "search", mini, o);
+                            }
+                        }
+                    } else {
+                        acc.count("regex_pattern_outside_mini_matcher_subset", 1);
+                    }
+                    o
                 }
                 _ => false,
             };
